@@ -93,7 +93,7 @@ theorem queryReady_scan_state (bufLen : Nat) (tr : Transport) (payload id opcode
     | udp =>
       simp only []
       -- set_limit(clamp(opt.class, 512, payload))
-      have hL := queryReady_call (.setLimit l) _ qn hE trivial (show l ≤ 65535 by omega)
+      have hL := queryReady_call (.setLimit l) _ qn hE (show l ≤ 65535 by omega) (show l ≤ 65535 by omega)
       have eL : (ServerSafety.Call.setLimit l).run (stEdns payload s1) = setLimit l (stEdns payload s1) := rfl
       have hlim : (stEdns payload s1).limit = 512 := by
         show s1.limit = 512; rw [hbase.lim]; rfl
